@@ -36,10 +36,16 @@ func H_clean() {
 	for _, b := range []string{bA1, bA2, bB1, stale1} {
 		vxrt.Assume(vxrt.Not(hasLine(b, "---")))
 	}
+	// the second test: a Test, or (thorough / known_K5=0) a benchmark or fuzz target:
+	// *testing.B and *testing.F satisfy the interface the Match* functions take
+	nameB := "TestB"
+	if vxrt.Param("known_K5", 1) == 0 {
+		nameB = []string{"TestB", "BenchmarkB", "FuzzB"}[vxrt.Choice("second-test-kind", 3)]
+	}
 	frames := []string{
 		frame("TestA - 1", bA1),
 		frame("TestA - 2", bA2),
-		frame("TestB - 1", bB1),
+		frame(nameB+" - 1", bB1),
 	}
 	staleFrames := []string{}
 	if vxrt.Bool("stale-ordinal") {
@@ -90,7 +96,7 @@ func H_clean() {
 	cs := WithConfig(Dir(dir), Update(false))
 	cg := WithConfig(Dir(dir), Filename("g"), Update(false))
 	for r := 0; r < count; r++ {
-		ta, tb, ts := newT("TestA"), newT("TestB"), newT("TestS")
+		ta, tb, ts := newT("TestA"), newT(nameB), newT("TestS")
 		c.MatchSnapshot(ta, bA1)
 		c.MatchSnapshot(ta, bA2)
 		c.MatchSnapshot(tb, bB1)
@@ -115,7 +121,7 @@ func H_clean() {
 
 	switch prop {
 	case 7: // C07: nothing addressed in this run is lost, altered or listed
-		for _, e := range []struct{ id, body string }{{"[TestA - 1]", bA1}, {"[TestA - 2]", bA2}, {"[TestB - 1]", bB1}} {
+		for _, e := range []struct{ id, body string }{{"[TestA - 1]", bA1}, {"[TestA - 2]", bA2}, {"[" + nameB + " - 1]", bB1}} {
 			got, _, err := getPrevSnapshot(e.id, path)
 			vxrt.Assert(err == nil, "C07:addressed-entry-still-present")
 			vxrt.Assert(vxrt.Eq(got, e.body), "C07:addressed-entry-value-unchanged")
@@ -123,7 +129,7 @@ func H_clean() {
 		vxrt.Assert(readFile(dir+"/TestS_1.snap") == "sv", "C07:addressed-standalone-untouched")
 		gg, _, gerr := getPrevSnapshot("[TestA - 1]", gpath)
 		vxrt.Assert(gerr == nil && gg == "g1", "C07:addressed-entry-in-second-file-unchanged")
-		for _, id := range []string{"TestA - 1", "TestA - 2", "TestB - 1"} {
+		for _, id := range []string{"TestA - 1", "TestA - 2", nameB + " - 1"} {
 			if id == "TestA - 2" && gStale {
 				// the same id is stale in g.snap and is rightly listed for that file
 				// (the summary does not name the file of an entry)
